@@ -130,6 +130,7 @@ class Evaluator:
                    "wf": chk[0] == b"1", "decl_like": chk[1] == b"1", "labels_ok": chk[2] == b"1", "thm": chk[3] == b"1",
                    "stage6_premises": chk[0] == b"1" and chk[2] == b"1" and chk[4] == b"1"}
             rec["spec_tree"] = G.canon_tree(strs, sl)
+            rec["labs"], rec["tstrs"] = labs, tstrs
             recs.append(rec)
             hl.append([lang.encode(), G.PRELUDE.encode(), text.encode()])
         ho = self.harness_lines(hl)
@@ -353,6 +354,49 @@ def dump_stream(run, ev, recs, tag):
                                    "harness": repr((r["impl_strs"], r["impl_links"]))[:1500]}, found_input=False)
 
 
+def minimal_parens_stream(run, ev, recs, limit):
+    """render claims minimal parentheses: removing a pair that render added (not an explicit EPar) must change the
+    tree the implementation reports (or make it reject).  Informational: shows the generator exercises precedence."""
+    lines, meta = [], []
+    for r in recs:
+        if len(lines) >= limit or r["status"] != "ok" or r.get("rewritten") or G.has_cast(r["e"]):
+            continue
+        strs, labs = r["strs"], r["labs"]
+        cand = [i for i, x in enumerate(strs) if x == "(" and labs[i] != i and i not in r["spec_links"]]
+        if not cand:
+            continue
+        i = cand[len(strs) % len(cand)]
+        d, j = 0, None
+        for k in range(i, len(strs)):
+            d += strs[k] in ("(", "[")
+            d -= strs[k] in (")", "]")
+            if d == 0:
+                j = k
+                break
+        if j is None:
+            continue
+        toks = [x for k, x in enumerate(r["tstrs"]) if k not in (i, j)]
+        lines.append([r["lang"].encode(), G.PRELUDE.encode(), " ".join(toks).encode()])
+        meta.append((r, " ".join(toks)))
+    if not lines:
+        return
+    out = ev.harness_lines(lines)
+    for (r, text), h in zip(meta, out):
+        if not h or h[0] == "!exc" or h[:1] != [b"ok"]:
+            run.count("minimal-parentheses", None, nontrivial=(r["lang"], text), bucket="removal-rejected")
+            continue
+        hs, hl = [], {}
+        for k, f in enumerate(h[1:]):
+            o1, o2, par, flags, x = f.decode("latin-1").split(",", 4)
+            hs.append(x)
+            hl[k] = (int(o1) if int(o1) >= 0 else None, int(o2) if int(o2) >= 0 else None)
+        same = G.canon_tree(hs, hl) == r["spec_tree"]
+        run.count("minimal-parentheses", None, nontrivial=(r["lang"], text),
+                  bucket="SAME-TREE-without-the-pair" if same else "tree-changes")
+        if same and len(run.notes) < 5:
+            run.notes.append("parentheses not needed for the reported tree: `%s` vs `%s`" % (r["text"], text))
+
+
 def read_dump(path):
     """line number -> (token strings, {idx: (o1, o2)}) for the body of each one-line function"""
     root = ET.parse(path).getroot()
@@ -442,6 +486,7 @@ def check(run, replay):
                 run.samples.append({"stream": "spec-vs-impl", "language": r["lang"], "statement": r["text"] + " ;",
                                     "grammar_tree": G.sexpr(r["strs"], r["spec_links"]),
                                     "reported_tree": G.sexpr(r["impl_strs"], r["impl_links"]) if r["status"] == "ok" else r.get("why")})
+    minimal_parens_stream(run, ev, sample, 300 if quick else 3000)
     # the real --dump on a sample
     dump_stream(run, ev, sample[:400 if quick else 4000], "s%d" % run.seed)
 
